@@ -197,6 +197,115 @@ Proof.
 Qed.
 
 (* ---------------------------------------------------------------------------------------- *)
+(* The int64 domain of the numeric fields                                                    *)
+(* ---------------------------------------------------------------------------------------- *)
+(* The rule functions take Z; the fields of the messages are int64.  A value decoded from the
+   wire (protobuf varint payload truncated to 64 bits, read as two's complement) is always in
+   range, so the premise [int64_range] costs nothing for messages that arrived over gRPC. *)
+Definition int64_of_wire (u : N) : Z :=
+  if u <? 9223372036854775808 then Z.of_N u else (Z.of_N u - 18446744073709551616)%Z.
+
+Lemma int64_of_wire_range u : u < uint64_bound -> int64_range (int64_of_wire u).
+Proof.
+  unfold int64_of_wire, int64_range, int64_min, int64_max, uint64_bound. intros H.
+  destruct (N.ltb_spec u 9223372036854775808); lia.
+Qed.
+Lemma int64_of_wire_truncated u : int64_range (int64_of_wire (u mod uint64_bound)).
+Proof. apply int64_of_wire_range. apply N.mod_lt. discriminate. Qed.
+(* on the wire "positive" means 0 < u < 2^63 *)
+Lemma positive_int64_wire u :
+  u < uint64_bound -> (positive_int64 (int64_of_wire u) = true <-> 0 < u < 9223372036854775808).
+Proof.
+  intros H. rewrite positive_int64_spec. unfold int64_of_wire, uint64_bound in *.
+  destruct (N.ltb_spec u 9223372036854775808); lia.
+Qed.
+
+Theorem bidder_bid_ok_int64 txs amount bn ds de :
+  int64_range bn -> int64_range ds -> int64_range de ->
+  (bidder_bid_ok txs amount bn ds de = true <->
+   hashes_spec txs /\ amount_spec amount /\
+   (0 < bn <= int64_max)%Z /\ (0 < ds <= int64_max)%Z /\ (0 < de <= int64_max)%Z).
+Proof.
+  unfold int64_range. intros Hb Hs He. rewrite bidder_bid_ok_spec. unfold bidder_bid_spec. intuition lia.
+Qed.
+
+Theorem provider_bid_ok_int64 txs amount bn digest ds de :
+  int64_range bn -> int64_range ds -> int64_range de ->
+  (provider_bid_ok txs amount bn digest ds de = true <->
+   hashes_spec txs /\ amount_spec amount /\ (0 < bn <= int64_max)%Z /\
+   (1 <= length digest <= 64)%nat /\ (0 < ds <= int64_max)%Z /\ (0 < de <= int64_max)%Z).
+Proof.
+  unfold int64_range. intros Hb Hs He. rewrite provider_bid_ok_spec. unfold provider_bid_spec. intuition lia.
+Qed.
+
+(* accepted numbers are in range whenever they were in range to begin with -- and a value
+   outside int64 is not excluded by the rule itself: *)
+Example rule_alone_accepts_beyond_int64 :
+  positive_int64 9223372036854775808 = true /\ ~ int64_range 9223372036854775808.
+Proof. split; [reflexivity | unfold int64_range, int64_max; lia]. Qed.
+
+(* ---------------------------------------------------------------------------------------- *)
+(* Bytes versus runes: the regular expressions are matched on decoded UTF-8                  *)
+(* ---------------------------------------------------------------------------------------- *)
+(* RE2 (Go regexp) walks the string rune by rune.  Whatever the exact decoder does, it has
+   this shape: an ASCII byte is one rune equal to the byte; a byte >= 0x80 starts a sequence
+   of one or more bytes (a well-formed multi-byte character, or a single invalid byte) that
+   yields one rune >= 0x80 (the character, or U+FFFD). *)
+Inductive utf8_decodes : bytes -> list N -> Prop :=
+  | dec_nil : utf8_decodes [] []
+  | dec_ascii c r rs : c < 128 -> utf8_decodes r rs -> utf8_decodes (c :: r) (c :: rs)
+  | dec_multi c cont r ru rs :
+      128 <= c -> 128 <= ru -> utf8_decodes r rs -> utf8_decodes (c :: cont ++ r) (ru :: rs).
+
+(* '^[a-fA-F0-9]{64}$' and '^[0-9]+$' on the rune sequence *)
+Definition re_hex64 (runes : list N) : Prop := length runes = 64%nat /\ Forall hex_char runes.
+Definition re_digits (runes : list N) : Prop := runes <> [] /\ Forall digit_char runes.
+
+Lemma decodes_ascii_bytes s rs : utf8_decodes s rs -> Forall (fun c => c < 128) s -> rs = s.
+Proof.
+  induction 1 as [|c r rs Hc _ IH|c cont r ru rs Hc Hru _ IH]; intros HF; [reflexivity| |].
+  - apply Forall_cons_iff in HF. destruct HF as [_ HF]. rewrite (IH HF). reflexivity.
+  - apply Forall_cons_iff in HF. destruct HF as [HF _]. lia.
+Qed.
+Lemma decodes_ascii_runes s rs : utf8_decodes s rs -> Forall (fun c => c < 128) rs -> rs = s.
+Proof.
+  induction 1 as [|c r rs Hc _ IH|c cont r ru rs Hc Hru _ IH]; intros HF; [reflexivity| |].
+  - apply Forall_cons_iff in HF. destruct HF as [_ HF]. rewrite (IH HF). reflexivity.
+  - apply Forall_cons_iff in HF. destruct HF as [HF _]. lia.
+Qed.
+
+Lemma hex_chars_ascii l : Forall hex_char l -> Forall (fun c => c < 128) l.
+Proof. apply Forall_impl. unfold hex_char. intros c H. lia. Qed.
+Lemma digit_chars_ascii l : Forall digit_char l -> Forall (fun c => c < 128) l.
+Proof. apply Forall_impl. unfold digit_char. intros c H. lia. Qed.
+
+(* the byte-level reading of both published classes is exact, for valid and invalid UTF-8 *)
+Theorem hash64_rune_level s rs : utf8_decodes s rs -> (re_hex64 rs <-> hash64_spec s).
+Proof.
+  intros D. unfold re_hex64, hash64_spec. split; intros [A B].
+  - rewrite <- (decodes_ascii_runes s rs D (hex_chars_ascii _ B)). auto.
+  - rewrite (decodes_ascii_bytes s rs D (hex_chars_ascii _ B)). auto.
+Qed.
+Theorem digits_rune_level s rs : utf8_decodes s rs -> (re_digits rs <-> s <> [] /\ Forall digit_char s).
+Proof.
+  intros D. unfold re_digits. split; intros [A B].
+  - rewrite <- (decodes_ascii_runes s rs D (digit_chars_ascii _ B)). auto.
+  - rewrite (decodes_ascii_bytes s rs D (digit_chars_ascii _ B)). auto.
+Qed.
+
+Theorem rules_rune_level s runes :
+  utf8_decodes s runes ->
+  ((length runes = 64%nat /\ Forall hex_char runes) <-> (length s = 64%nat /\ Forall hex_char s)) /\
+  ((runes <> [] /\ Forall digit_char runes) <-> (s <> [] /\ Forall digit_char s)).
+Proof. intros D. split; [exact (hash64_rune_level s runes D) | exact (digits_rune_level s runes D)]. Qed.
+
+(* 62 hex digits followed by a two-byte character: 64 bytes but 63 runes; and an invalid byte *)
+Example decodes_e_acute : utf8_decodes [49; 195; 169; 50] [49; 233; 50].
+Proof. apply dec_ascii; [lia|]. apply (dec_multi 195 [169] [50] 233 [50]); try lia. apply dec_ascii; [lia|]. constructor. Qed.
+Example decodes_invalid : utf8_decodes [255; 49] [65533; 49].
+Proof. apply (dec_multi 255 [] [49] 65533 [49]); try lia. apply dec_ascii; [lia|]. constructor. Qed.
+
+(* ---------------------------------------------------------------------------------------- *)
 (* The CEL-shaped layer agrees with the boolean layer                                        *)
 (* ---------------------------------------------------------------------------------------- *)
 
